@@ -174,6 +174,7 @@ inductive Ev
   | ret (x : FVal)      -- value returned by `audio.volume`
   | tried (x : FVal)    -- dBFS level sent with SET_PARAMETER and rejected by the receiver
   | late (x : FVal)     -- dBFS level sent by StreamClient.send_audio after RECORD (deferred)
+  | key (up : Bool)     -- MRP: volume-up / volume-down HID key pressed and released (no level)
   | raised (e : Err)    -- exception propagated to the caller
   | logged (e : Err)    -- exception inside a state listener (the event loop logs it)
   deriving DecidableEq
@@ -333,6 +334,30 @@ def Mrp.step (s : Mrp) : Op → Mrp × List Ev
   | .reportOther _ => (s, [])      -- `if inner.outputDeviceUID == self.device_uid` is false: ignored
   | .setRefused _ => (s, [])       -- not an MRP operation (the driver rejects it)
   | .streamStart _ _ => (s, [])    -- not an MRP operation (the driver rejects it)
+
+/-- the same for any volume capabilities of the device (`_update_volume_controls`):
+    `abs` = absolute control (capabilities Absolute / Both), `rel` = relative control
+    (Relative / Both).  Only volume_up / volume_down depend on them: at the end stop with
+    absolute control nothing happens; with relative control a key press is sent (the device
+    chooses the step); with absolute control only, the level is set; without either, nothing.
+    `set_volume` sends the level whatever the capabilities (they only decide whether it waits
+    for the device's confirmation, which the model leaves to the following `report`). -/
+def Mrp.stepC (abs rel : Bool) (s : Mrp) : Op → Mrp × List Ev
+  | .up =>
+    if abs && FVal.eqPy s.vol (.fin mrpUpStop) then (s, [])
+    else if rel then (s, [.key true])
+    else if abs then Mrp.step rnd s .up
+    else (s, [])
+  | .down =>
+    if abs && FVal.eqPy s.vol (.fin mrpDownStop) then (s, [])
+    else if rel then (s, [.key false])
+    else if abs then Mrp.step rnd s .down
+    else (s, [])
+  | op => Mrp.step rnd s op
+
+def Mrp.runC (abs rel : Bool) (s : Mrp) : List Op → List (List Ev)
+  | [] => []
+  | op :: ops => ((Mrp.stepC rnd abs rel s op).2) :: Mrp.runC abs rel (Mrp.stepC rnd abs rel s op).1 ops
 
 def Mrp.run (s : Mrp) : List Op → List (List Ev)
   | [] => []
